@@ -1,4 +1,5 @@
 import XzVerif.Proofs.Segment
+import XzVerif.Proofs.GoSrcHash
 import XzVerif.Proofs.Tables
 import XzVerif.Proofs.XzRoundTrip
 import XzVerif.Proofs.Select
@@ -251,5 +252,29 @@ theorem C01_roundtrip_lazy_reader {σ : Type} (c : XzW.Cfg) (hc : XzW.CfgOk c) (
       LazyDec.delivered (LazyXz.readSeq x lens) = XzW.written writes := by
   obtain ⟨hst, hout⟩ := XzW.xz_writer_roundtrip false c hc M I hI m0 h0 writes hsize hblocks cfgCap (fun _ => hcap)
   exact lazyxz_of_batch cfgCap hcfg _ _ hst hout lens hsum
+
+/-! ### The HashTable4 match finder's table, from the SOURCE (regenerated translation, Gen/GoSrc.lean)
+
+  The match finder model `HT.HT4` (Model/HashTable.lean) — the one the end-to-end theorems above are instantiated with and
+  whose computed streams equal the real writer's — maintains its hash chains exactly as lzma/hashtable.go does: the table
+  update of `Tab.writeByte` is `putEntry` as written in Go (slot `h & mask`, position + 1 in the slot, the delta to the
+  previous word with the same hash in the circular list, 0 when that word is out of reach or beyond 2^32 − 1), and the
+  table exponent is `hashTableExponent` (through `nlz32`). -/
+
+theorem C01_source_hashtable_maintenance :
+    (∀ n : BitVec 32, GoSrc.hashTableExponent n = Go.Res.ok (BitVec.ofNat 64 (HT.tableExponent n.toNat))) ∧
+    (∀ (t : HT.Tab) (c : UInt8), t.writeByte c =
+      (let t' := { t with n := t.n + 1, b1 := t.b2, b2 := t.b3, b3 := c }
+       if t'.n < 4 then t' else GoSrcP.putEntryM t' (HT.hash4 t.b1 t.b2 t.b3 c).toNat)) ∧
+    (∀ (g : GoSrc.T_hashTable) (t : HT.Tab), GoSrcP.TabRel g t → ∀ (h : BitVec 64), 4 ≤ t.n →
+      (∀ i, i < t.t.size → t.t.getD i 0 ≤ t.n - 4 + 1) →
+      ∃ g', GoSrc.hashTable_putEntry g h (BitVec.ofNat 64 (t.n - 4)) = Go.Res.ok g' ∧ GoSrcP.TabRel g' (GoSrcP.putEntryM t h.toNat)) ∧
+    (∀ (g : GoSrc.T_hashTable) (h pos : BitVec 64), pos.toInt < 0 → GoSrc.hashTable_putEntry g h pos = Go.Res.ok g) ∧
+    (∀ (g : GoSrc.T_hashTable) (t : HT.Tab), GoSrcP.TabRel g t → (GoSrc.hashTable_buffered g).toNat = t.buffered) :=
+  ⟨GoSrcP.hashTableExponent_spec, GoSrcP.writeByte_eq_putEntryM,
+   fun g t rel h hn hord => GoSrcP.putEntry_refines g t rel h hn hord,
+   GoSrcP.putEntry_early, GoSrcP.buffered_refines⟩
+
+theorem C01_source_translation_complete : GoSrc.failures = [] := by decide
 
 end Props.C01
